@@ -14,6 +14,7 @@ GEN_NEEDS = ["biotypes", "genbank_TranscriptFeatures", "genbank_NonCodingTranscr
              "genbank_KnownQualifiers", "genbank_MetadataFeatures", "genbank_GenBankParserType", "genbank_GenbankFlavor",
              "genbank_GENBANK_GENE_FEATURES"]
 MODEL_OPS = {"gbw", "gbp", "gbrt", "gbm"}      # gbc: judged in Python against Bio.SeqIO, spec driver demands `ok clean`
+CHUNK_OPS = ("gbwk", "gbrtk", "gbck")           # the same three legs for a collection built on a sequence chunk
 ERR_CLASS = False
 RULE = ("one case = one operation line.  gbw: one collection x flavour x force_strand x update_translations through the "
         "real collection_to_genbank / gene_to_feature up to the SeqFeatures handed to Bio.SeqIO.write (call intercepted; "
@@ -63,7 +64,7 @@ def nontrivial(line, ans):
     if not ans.startswith("ok"):
         return None
     t = line.split()
-    if t[0] in ("gbw", "gbrt", "gbc"):
+    if t[0] in ("gbw", "gbrt", "gbc") + CHUNK_OPS:
         # a coding transcript (a frame token) or a multi-exon block list
         if any(x in ("Z", "O", "T") for x in t):
             return line
@@ -176,6 +177,60 @@ def cases(run):
                     yield f"gbrt {fl} {m} {body}"
                 yield f"gbc {fl} {rng.choice('01')} {body}"
                 yield f"gbw {fl} 1 {rng.choice('01')} {body}"
+    # ---- collections built on a sequence chunk: window x chunk strand, the three legs ---------------------------------
+    # small scope: the one-gene layouts above under windows of [0,10) (all of them in the thorough tier)
+    k = 0
+    for ex, cds in small_layouts():
+        for strand in ("PLUS", "MINUS"):
+            for sf in ((0, 1, 2) if cds else (0,)):
+                k += 1
+                if quick and k % 24 != run.seed % 24:
+                    continue
+                body = enc_coll(small_coll(ex, cds, strand, sf), seq10)
+                # windows holding a base of the exons (and of the CDS); 1 in 12 of the others (documented refusal)
+                wins = [(a, b) for a in range(0, 9) for b in range(a + 1, 10)
+                        if (any(max(s, a) < min(e, b) for s, e in ex) and
+                            (not cds or any(max(s, a) < min(e, b) for s, e in cds))) or (a + b + k) % 12 == 0]
+                if quick:
+                    wins = rng.sample(wins, 1)
+                elif k % 8 != run.seed % 8:
+                    wins = rng.sample(wins, 3)
+                for ws, we in wins:
+                    run.count("chunk-small")
+                    for fl in "PE":
+                        yield f"gbwk {fl} 1 1 {ws} {we} + {body}"
+                        yield f"gbck {fl} 1 {ws} {we} + {body}"
+                        yield f"gbrtk {fl} {rng.choice('SLH')} {ws} {we} + {body}"
+    for name, p in RT_PROFILES:
+        for _ in range(7 if quick else 120):
+            coll, seq = GC.gen_rt_collection(rng, p)
+            ws, we, kind = GC.gen_window(rng, coll, len(seq))
+            coll = GC.restrict_to_window(rng, coll, ws, we, 0.08)
+            if not coll["genes"] and not coll["feature_collections"]:
+                run.count("chunk:nothing-in-window")
+                continue
+            wst = "-" if rng.random() < 0.06 else "+"
+            win = f"{ws} {we} {wst}"
+            body = enc_coll(coll, seq)
+            run.count(f"chunk-window:{kind}")
+            run.count(f"chunk-strand:{wst}")
+            _count_coll(run, "chunk:", coll)
+            for fl in "PE":
+                for m in "SLH":
+                    yield f"gbrtk {fl} {m} {win} {body}"
+                yield f"gbck {fl} {rng.choice('011')} {win} {body}"
+                yield f"gbwk {fl} {rng.choice('01')} {rng.choice('011')} {win} {body}"
+    # anything the writer accepts (several isoforms, mixed strands, programmed frameshifts) on a chunk
+    for _ in range(120 if quick else 2500):
+        p = dict(n_fc=rng.choice([0, 0, 1, 2]), mixed_strands=rng.random() < 0.2, max_tx=rng.choice([1, 2, 3]))
+        coll, seq = GC.gen_w_collection(rng, p)
+        ws, we, kind = GC.gen_window(rng, coll, len(seq))
+        coll = GC.restrict_to_window(rng, coll, ws, we, 0.05)
+        if not coll["genes"] and not coll["feature_collections"]:
+            continue
+        run.count(f"chunk-w-window:{kind}")
+        wst = "-" if rng.random() < 0.06 else "+"
+        yield f"gbwk {rng.choice('PE')} {rng.choice('01')} {rng.choice('01')} {ws} {we} {wst} {enc_coll(coll, seq)}"
     # ---- generated collections: everything the writer accepts (model correspondence + clause (a) where in scope) ----
     for _ in range(250 if quick else 4000):
         p = dict(n_fc=rng.choice([0, 0, 1, 2]), mixed_strands=rng.random() < 0.3, max_tx=rng.choice([1, 2, 3]))
